@@ -22,15 +22,17 @@ CLASSES = {
     'C': [('Id', 'unique_id'), ('A_Id', None), ('F', BOOL), ('N', INT)],
     'L': [('A_Id', None), ('B_Id', None), ('W', INT)],
     'D': [('Id', 'unique_id'), ('S', STR), ('K', INT), ('X', REAL), ('Cnt', COUNT)],
+    # refers to the identifier of L, which consists of referential attributes itself (a key chain)
+    'M': [('Id', 'unique_id'), ('L_A_Id', None), ('L_B_Id', None), ('N', INT)],
 }
 # (rel, from class, to class, phrase or None): navigable steps
 NAV = [(1, 'B', 'A', None), (1, 'A', 'B', None), (2, 'C', 'A', None), (2, 'A', 'C', None),
        (3, 'A', 'A', 'precedes'), (3, 'A', 'A', 'succeeds'),
        (4, 'L', 'A', None), (4, 'A', 'L', None), (4, 'L', 'B', None), (4, 'B', 'L', None),
-       (4, 'A', 'B', None), (4, 'B', 'A', None)]
+       (4, 'A', 'B', None), (4, 'B', 'A', None), (5, 'M', 'L', None), (5, 'L', 'M', None)]
 RELATE = [(1, 'B', 'A', None, None), (1, 'A', 'B', None, None), (2, 'C', 'A', None, None),
           (3, 'A', 'A', 'precedes', None), (3, 'A', 'A', 'succeeds', None),
-          (4, 'A', 'B', None, 'L'), (4, 'B', 'A', None, 'L')]
+          (4, 'A', 'B', None, 'L'), (4, 'B', 'A', None, 'L'), (5, 'M', 'L', None, None)]
 # the *_shadow callables declare the parameter names of the home actions with other types: a parameter read
 # must resolve within its own action
 FUNCS = {'f_shadow': (VOID, [('p_int', STR), ('p_str', BOOL), ('p_bool', INT)]),
@@ -80,6 +82,7 @@ def diagram():
         bp.Simple(2, bp.End('C', 0, 1, ''), bp.End('A', 0, 1, ''), [('A_Id', 'Id')]),
         bp.Simple(3, bp.End('A', 0, 1, 'succeeds'), bp.End('A', 0, 1, 'precedes'), [('Next_Id', 'Id')]),
         bp.Linked(4, bp.End('A', 1, 1, 'x'), bp.End('B', 1, 1, 'y'), 'L', 0, [('A_Id', 'Id')], [('B_Id', 'Id')]),
+        bp.Simple(5, bp.End('M', 1, 1, ''), bp.End('L', 0, 1, ''), [('L_A_Id', 'A_Id'), ('L_B_Id', 'B_Id')]),
     ]
     for n, (r, p) in FUNCS.items():
         d.functions.append((bp.Callable_(n, r, p, ''), 'pkg'))
